@@ -93,15 +93,28 @@ func (in *inst) executor(id, gate int) func(vcontext.Context) (interface{}, erro
 	}
 }
 
-func resString(r *wp.TaskResult) string {
+var errCause = fmt.Errorf("application is shutting down")
+
+// resString: "ec" = the error of a context that has ended - the task's own or the pool's (Canceled for a cancelled
+// one, DeadlineExceeded for one that ran into its deadline); any other error value is reported as such.
+func resString(r *wp.TaskResult) string { return current.resString(-1, r) }
+
+func (in *inst) resString(id int, r *wp.TaskResult) string {
 	if r == nil {
 		return "nilresult"
 	}
 	if r.Err != nil {
-		if r.Err == vcontext.Canceled {
+		ok := in.poolCtx != nil && in.poolCtx.Err() == r.Err
+		if ti := in.tasks[id]; ti != nil && ti.ctxid > 0 && in.ctxs[ti.ctxid].Err() == r.Err {
+			ok = true
+		}
+		if id < 0 && (r.Err == vcontext.Canceled || r.Err == vcontext.DeadlineExceeded) {
+			ok = true
+		}
+		if ok {
 			return "ec"
 		}
-		return "e?"
+		return fmt.Sprintf("e?(%v)", r.Err)
 	}
 	if v, ok := r.Result.(int64); ok {
 		return fmt.Sprintf("v%d", v)
@@ -214,7 +227,7 @@ func (in *inst) Exec(t int, op vdrv.Op) string {
 			}
 			r = c.Val()
 		}
-		res := resString(r)
+		res := in.resString(id, r)
 		ti.received = append(ti.received, res)
 		return res
 	}
@@ -234,7 +247,7 @@ func (in *inst) Final() string {
 		if ti.task != nil {
 			ch := ti.task.Result()
 			for ch.Len() > 0 {
-				rest = append(rest, resString(vchan.Recv(ch)))
+				rest = append(rest, in.resString(id, vchan.Recv(ch)))
 			}
 		}
 		parts = append(parts, fmt.Sprintf("t%d:x%d:%s", id, len(ti.begins), strings.Join(rest, "+")))
@@ -250,7 +263,16 @@ func newInst(s *vdrv.Scenario) vdrv.Instance {
 	vtime.ResetAll()
 	in := &inst{ctxs: map[int]vcontext.Context{}, cancels: map[int]vcontext.CancelFunc{}, gates: map[int]bool{}, tasks: map[int]*taskInfo{}}
 	for k := 1; k <= s.OptInt("ctxs", 3); k++ {
-		in.ctxs[k], in.cancels[k] = vcontext.WithCancel(vcontext.Background())
+		if k%2 == 0 {
+			// every second task context ends by "deadline": the scenario's cancel operation is its expiry
+			in.ctxs[k], in.cancels[k] = vcontext.WithDeadlineManual(vcontext.Background())
+		} else if k%4 == 3 {
+			// cancelled WITH A CAUSE: Err() stays context.Canceled, which is what a refused task must carry
+			c, cc := vcontext.WithCancelCause(vcontext.Background())
+			in.ctxs[k], in.cancels[k] = c, func() { cc(errCause) }
+		} else {
+			in.ctxs[k], in.cancels[k] = vcontext.WithCancel(vcontext.Background())
+		}
 	}
 	// the options go to NewPool as given (zero / negative values included); the monitors use their documented meaning:
 	// NumberWorker <= 0 means runtime.NumCPU() (fixed to 2 here), ExpandableLimit < 0 means 0
@@ -264,8 +286,21 @@ func newInst(s *vdrv.Scenario) vdrv.Instance {
 		in.limit = 0
 	}
 	// the pool context is a child of a harness-owned root, so that the harness can recognise it
-	root, rootCancel := vcontext.WithCancel(vcontext.Background())
-	in.cancels[0] = rootCancel
+	var root vcontext.Context
+	if s.OptInt("pooldl", 0) == 2 {
+		// the pool's parent context is cancelled with a cause
+		c, cc := vcontext.WithCancelCause(vcontext.Background())
+		root, in.cancels[0] = c, func() { cc(errCause) }
+	} else if s.OptInt("pooldl", 0) == 1 {
+		// the pool's parent context ends by deadline
+		var expire func()
+		root, expire = vcontext.WithDeadlineManual(vcontext.Background())
+		in.cancels[0] = expire
+	} else {
+		var rootCancel vcontext.CancelFunc
+		root, rootCancel = vcontext.WithCancel(vcontext.Background())
+		in.cancels[0] = rootCancel
+	}
 	in.p = wp.NewPool(root, wp.Option{NumberWorker: rawWorkers, ExpandableLimit: int32(rawLimit), DisableAutoStart: s.OptInt("autostart", 1) == 0})
 	in.poolCtx = in.p.VerifCtx()
 	current = in
